@@ -269,6 +269,7 @@ Definition K_MAXLABEL_ROOT := 10%nat.
 Definition K_DAGMERGE := 12%nat.   (* at the child of a DAG merge node the mapping follows the first parent only while
                                       indices / blocks resolve over all parents (finding C08-dagmerge) *)
 Definition K_RESTART := 13%nat.    (* a restart of the server changed what a version shows *)
+Definition K_NEWLABELS := 14%nat.  (* an accepted split-supervoxel did not answer two distinct unused labels honouring the request *)
 Definition K_LOWRES := 11%nat.     (* scale 1 is not the down-sampling of scale 0 / its mapped read is not the mapping of it *)
 
 Definition first_nz (l : list nat) : nat :=
@@ -417,6 +418,19 @@ Definition conserve_ok (r : req) (a b : obs) : bool :=
   | _ => true
   end.
 
+(* the labels an accepted split-supervoxel answers: two distinct non-zero labels, the ones the
+   client asked for where it asked, none of them a label that had voxels before *)
+Definition vol_has (v : vol N) (l : N) : bool := existsb (existsb (existsb (N.eqb l))) v.
+Definition ret_ok (r : req) (ret : list N) (before : obs) : bool :=
+  match r, ret with
+  | RSplitSV _ sv _ split remain, [a; b] =>
+    negb (a =? b) && negb (a =? 0) && negb (b =? 0) && negb (a =? sv) && negb (b =? sv) &&
+    ((split =? 0) || (a =? split)) && ((remain =? 0) || (b =? remain)) &&
+    negb (vol_has (ob_sv before) a) && negb (vol_has (ob_sv before) b)
+  | RSplitSV _ _ _ _ _, _ => false
+  | _, _ => true
+  end.
+
 Record runst := { rs_obs : list (N * obs) }.
 
 (* one snapshot: returns the class and the updated observation table *)
@@ -447,14 +461,16 @@ Definition snap_step (g : geom) (mc : list N) (st : step) (first : bool) (tbl : 
               | Some bv =>
                 if bv =? sn_ver s then 0%nat
                 else if own then
-                       if st_ok st then chk (conserve_ok (st_req st) base o) K_CONSERVE
+                       if st_ok st then pick [chk (conserve_ok (st_req st) base o) K_CONSERVE;
+                                               chk (ret_ok (st_req st) (st_ret st) base) K_NEWLABELS]
                        else chk (obs_same base o) K_REJECTED
                      else chk (obs_same base o) K_ISOLATION
               | None => 0%nat
               end
             | Some po =>
               if own then
-                if st_ok st then chk (conserve_ok (st_req st) po o) K_CONSERVE
+                if st_ok st then pick [chk (conserve_ok (st_req st) po o) K_CONSERVE;
+                                        chk (ret_ok (st_req st) (st_ret st) po) K_NEWLABELS]
                 else chk (obs_same po o) K_REJECTED
               else chk (obs_same po o) (match st_req st with RRestart => K_RESTART | _ => K_ISOLATION end)
             end in
